@@ -46,13 +46,15 @@ def contents(rng):
 
 
 class Scenario:
-    def __init__(self, handler, tag, data, epoch, mode=0o644, mtime_ns=NOW_NS, uid=0, gid=0, nlink=1, check=False, stale=False, name=None):
+    def __init__(self, handler, tag, data, epoch, mode=0o644, mtime_ns=NOW_NS, uid=0, gid=0, nlink=1, check=False, stale=False, name=None, dir_mode=None):
+        self.dir_mode = dir_mode          # mode of the directory holding the file (None: as created); the runs are made by root, who may write anyway
         self.handler, self.tag, self.data, self.epoch = handler, tag, data, epoch
         self.mode, self.mtime_ns, self.uid, self.gid, self.nlink, self.check, self.stale = mode, mtime_ns, uid, gid, nlink, check, stale
         self.name = name or ("file." + EXT[handler])
 
     def label(self):
-        return "%s/%s mode=%o nlink=%d check=%d stale=%d owner=%d:%d" % (self.handler, self.tag, self.mode, self.nlink, self.check, self.stale, self.uid, self.gid)
+        return "%s/%s mode=%o nlink=%d check=%d stale=%d owner=%d:%d%s" % (self.handler, self.tag, self.mode, self.nlink, self.check, self.stale, self.uid, self.gid,
+                                                                             "" if self.dir_mode is None else " directory mode=%o" % self.dir_mode)
 
     def build(self):
         t = fh.Tree()
@@ -68,6 +70,8 @@ class Scenario:
         os.chown(p, self.uid, self.gid)
         os.chmod(p, self.mode)
         os.utime(p, ns=(self.mtime_ns, self.mtime_ns))
+        if self.dir_mode is not None:
+            os.chmod(t.path("d"), self.dir_mode)
         os.utime(t.path("d"), ns=(NOW_NS - 7, NOW_NS - 7))
         return t
 
